@@ -1130,7 +1130,7 @@ func compileStringLitEx(ctx *blockCtx, cb *gogen.CodeBuilder, lit *ast.BasicLit)
 			}
 			compileExpr(ctx, v, flags)
 			t := cb.Get(-1).Type
-			if t.Underlying() == types.Typ[types.String] {
+			if b, ok := t.Underlying().(*types.Basic); ok && b.Info()&types.IsString != 0 { // string, named string or untyped string constant
 				if t != types.Typ[types.String] { // named string type: the literal is a string (and stringutil.Concat takes strings)
 					x := cb.InternalStack().Pop()
 					cb.Typ(types.Typ[types.String])
